@@ -31,7 +31,8 @@ claim('C02', 'typestate + must-check gate analysis on SSA, finite decision table
 claim('C03', 'who-may-call inventory + effect-site gate analysis + provenance by access-path labels on SSA',
       'Static, all-paths: the trust store is read at exactly one product site; that site is reachable only for listed stores whose type prefix equals the wanted type, with the name taken from the listed entry; '
       'a load error or malformed entry fails the whole load with a nil slice; the wanted type is a constant selected by the verified envelope\'s signing scheme (ca/signingAuthority; tsa only from the timestamp path); '
-      'the stores, identities, name and options handed down belong to the single selected statement; VerifyAuthenticity receives exactly the loaded certificates and an empty set or error is a failing result. '
+      'the stores, identities, name and options handed down belong to the single selected statement; VerifyAuthenticity receives exactly the loaded certificates and an empty set or error is a failing result; '
+      'the store implementation returns for (type, name) exactly what it just read from the directory of that type and name (no cache keyed by name alone) and the statement whose stores are used is the one selected for the artifact (the exact-set rules of C13 and the selection rules of C08, re-decided under C03 keys). '
       'Necessary structural conditions for every placement of certificates in stores; certificate identity itself is trusted to notation-core-go.', 'DESIGN.md 2/C03')
 claim('C04', 'instruction whitelist + per-iteration must-check gates + argument provenance on SSA',
       'Static, all-paths: the identity check reads the chain only at constant index 0; it succeeds only through the wildcard or a true subset test whose first argument is a parsed listed identity and whose second is the parsed subject of certs[0]; '
